@@ -358,6 +358,30 @@ _INSTANCES = {}
 _EXCLUDE = set()
 
 
+def _restore_names(fn):
+    """A helper's local `x` becomes `x__i<N>` when the helper is expanded.  Where that was not needed to keep things apart - the host
+    function has no name `x` and no other expansion brought an `x` of its own - the local gets its plain name back, so that a function
+    split into stages reads, expanded, like the function it was split from."""
+    import re
+    names = {}
+    for n in ast.walk(fn):
+        ident = n.id if isinstance(n, ast.Name) else n.arg if isinstance(n, ast.arg) else None
+        if ident is not None:
+            names.setdefault(ident, []).append(n)
+    by_base = {}
+    for ident in names:
+        m = re.match(r"^(.*)__i\d+$", ident)
+        if m:
+            by_base.setdefault(m.group(1), []).append(ident)
+    for base, variants in by_base.items():
+        if len(variants) == 1 and base not in names:
+            for n in names[variants[0]]:
+                if isinstance(n, ast.Name):
+                    n.id = base
+                else:
+                    n.arg = base
+
+
 def inlined(prog, func, depth=2, exclude=(), owner=None):
     """owner: the class through which an inherited method is looked at (self.x() then resolves to that class's overriding methods)."""
     global _EXCLUDE
@@ -382,6 +406,7 @@ def _inlined(prog, func, depth=2, owner_override=None):
         _INSTANCES[id(owner_cls)] = inst
     new = clone(func)
     new.body = _rewrite_block(prog, new.body, owner_cls, module, depth)
+    _restore_names(new)
     ast.fix_missing_locations(new)
     _link(new, getattr(func, "_parent", None), module)
     new._qualname = getattr(func, "_qualname", func.name)
